@@ -47,6 +47,9 @@ def main(args: Any) -> int:
     rep.bounds.append(f"{nl} generated functions with loops: for over range(constant <= 3) or range(x % 2|3), counted while loops, break / continue; symbolic trip counts explored up to 8 iterations")
     c15_ir.run_corpus(rep, tv.gen_programs(seed, nl, loops=True), "generated int programs with loops", "mypyc IR")
     c15_ir.run_corpus(rep, tv.one_op_programs(), "one-operation functions (shared with C15/K2)", "mypyc IR")
+    from vf import c05_wrappers
+
+    c05_wrappers.run(rep, args.tier)
     return rep.finish(level="translation_validation")
 
 
